@@ -174,6 +174,25 @@ Proof. exact json_transparent. Qed.
 Print Assumptions C11_json_transparent.
 
 (* ---------------------------------------------------------------------------------------------
+   Several EventQueue instances in one process, operations addressed to queue 0/1/2/... interleaved
+   in one sequence (`mrun`): queue i ends in the state, and the operations addressed to it get the
+   results, of running those operations on queue i alone; so every statement above holds for each
+   queue of the system whatever happens to the others.  In the model a result is a value, so a list
+   returned earlier cannot change later; that the implementation's queues share nothing and that its
+   returned lists are fresh and stay what they were is part of every correspondence case. *)
+Theorem C11_queues_independent : forall (qs : list queue) (ops : list (nat * op)) (i : nat),
+  (i < length qs)%nat ->
+  nth i (fst (mrun qs ops)) eq_new = fst (run (nth i qs eq_new) (proj i ops)) /\
+  proj_results i ops (snd (mrun qs ops)) = snd (run (nth i qs eq_new) (proj i ops)).
+Proof. exact (fun qs ops i => queues_independent ops qs i). Qed.
+Print Assumptions C11_queues_independent.
+
+Theorem C11_multi_reachable : forall (qs : list queue) (ops : list (nat * op)) (i : nat),
+  (i < length qs)%nat -> reachable (nth i qs eq_new) -> reachable (nth i (fst (mrun qs ops)) eq_new).
+Proof. exact (fun qs ops i => multi_reachable ops qs i). Qed.
+Print Assumptions C11_multi_reachable.
+
+(* ---------------------------------------------------------------------------------------------
    The hypotheses are satisfiable and the statements are not vacuous: a concrete interleaving with
    ties, an insertion between retrievals, a restore and an empty-queue retrieval. *)
 Example C11_example :
